@@ -101,6 +101,68 @@ def oracle_exact_branches(g, rc, obs):
     return bad
 
 
+def oracle_selected_runs(g, rc, obs):
+    """The other half of "exactly the selected branches execute": a target whose inputs all come from the caller and that a gate
+    runnable from the start (see oracle_exact_branches) names in its single decision DOES run - whatever the other gates that
+    share the target decided (a node starts if SOME controlling gate's latest decision names it)."""
+    if obs.get("status") != "completed" or g.get("loop") or g.get("entrypoints") or g.get("selected"):
+        return []
+    bad = []
+    nodes = {n["name"]: n for n in g["nodes"]}
+    produced = {o for n in g["nodes"] for o in list(n.get("outputs", [])) + list(n.get("emit", []))}
+    ctrl = {}
+    for n in g["nodes"]:
+        for t in gate_targets(n):
+            if t in nodes:
+                ctrl.setdefault(t, []).append(n["name"])
+    started, decisions = {}, {}
+    for ev in obs.get("events", []):
+        if ev["type"] == "NodeStartEvent":
+            started[ev["node_name"]] = started.get(ev["node_name"], 0) + 1
+        elif ev["type"] == "RouteDecisionEvent":
+            decisions.setdefault(ev["node_name"], []).append(ev.get("decision"))
+    for G, n in nodes.items():
+        if n["kind"] not in ("ifelse", "route") or n.get("wait_for") or not all(p in rc["inputs"] and p not in produced for p in n["inputs"]):
+            continue
+        if not all(nodes[H].get("default_open", True) and len(decisions.get(H, [])) == 1 and names_decision(decisions[H][0], G)
+                   for H in ctrl.get(G, [])):
+            continue
+        if len(decisions.get(G, [])) != 1:
+            continue
+        for t in gate_targets(n):
+            tn = nodes.get(t)
+            if tn is None or t == G or tn.get("wait_for") or tn["kind"] not in ("func",):
+                continue
+            if not all((p in rc["inputs"] or p in tn.get("defaults", {}) or p in g.get("bound", {})) and p not in produced for p in tn["inputs"]):
+                continue
+            if names_decision(decisions[G][0], t) and not started.get(t):
+                others = {H: decisions.get(H, ["<none>"])[-1] for H in ctrl.get(t, []) if H != G}
+                bad.append(f"gate {G} selected {t} (decision {decisions[G][0]!r}) but {t} never started although all its inputs were supplied "
+                           f"(other gates of {t} decided {others})")
+    return bad
+
+
+def oracle_pass_per_decision(g, obs):
+    """A loop body whose only gate is the loop gate: every pass after the first (which a default-open gate that has not decided
+    yet allows) needs a decision of its own - the gate decides before its target runs again.  So the first body node starts at
+    most (1 if the gate is default-open) + (number of decisions naming it) times; more means the target ran again unchecked."""
+    lp = g.get("loop") or {}
+    if not lp or lp.get("family") or lp.get("accum"):
+        return []
+    nodes = {n["name"]: n for n in g["nodes"]}
+    gates = [n["name"] for n in g["nodes"] if "b1" in gate_targets(n)]
+    if "b1" not in nodes or len(gates) != 1:
+        return []
+    G = gates[0]
+    runs = sum(1 for ev in obs.get("events", []) if ev["type"] == "NodeStartEvent" and ev.get("node_name") == "b1")
+    named = sum(1 for ev in obs.get("events", []) if ev["type"] == "RouteDecisionEvent" and ev.get("node_name") == G and names_decision(ev.get("decision"), "b1"))
+    allowed = named + (1 if nodes[G].get("default_open", True) else 0)
+    if runs > allowed:
+        return [f"loop body b1 started {runs} times but its only gate {G} named it in {named} decisions "
+                f"({'default-open: one pass before the first decision' if allowed > named else 'closed by default'}): it ran again without the gate deciding first"]
+    return []
+
+
 def make_case(rng):
     fam = rng.choice(["gated", "gated", "gated", "loop", "loop_sync", "gated_loop", "late_signal"])
     if fam == "late_signal":
@@ -191,7 +253,7 @@ def run(ctx):
     nontrivial = set()
 
     def extra(i, g, rc, obs, batch, N):
-        msgs = oracle_events(g, obs) + oracle_exact_branches(g, rc, obs)
+        msgs = oracle_events(g, obs) + oracle_exact_branches(g, rc, obs) + oracle_selected_runs(g, rc, obs) + oracle_pass_per_decision(g, obs)
         lp = g.get("loop") or {}
         if lp.get("family") == "L3" and obs["status"] == "completed":
             # one body pass per decision that selects it: the sequential while loop
